@@ -14,7 +14,26 @@ from . import common, sampling
 PROPERTY = "C16"
 
 
+def generate_big(seed):
+    """Scale probe (thorough tier, ~1 run in 2000): a file-path rejection step whose posterior stage fans out MORE than
+    65536 accepted indices in few batches (flat likelihood: every row is accepted).  C16 judges coverage only, so no
+    likelihood reference is needed."""
+    rnd = tape.sub(seed, PROPERTY, "gen-big")
+    cfg = common.base_config(seed, PROPERTY, rnd, tier="thorough", n_libs=1, n_data=1, profile="flat", allow_f4=False)
+    lib = cfg["libraries"][0]
+    lib["n"] = 65536 + rnd.randint(1000, 9000)
+    lib["duplicates"] = []
+    lib["view"] = None
+    cfg["datasets"][0]["orbit_from"] = None
+    cfg["sched_profile"] = {"p_dill": 0.0, "p_proc": 0.0, "p_shared": 1.0}
+    op = {"id": 0, "op": "rejection", "data": 0, "lib": 0, "source": "file", "in_memory": False, "joker": "main", "role": "target",
+          "kw": {"n_batches": rnd.choice([1, 1, 2]), "n_linear_samples": 1}}
+    return {"format": 1, "property": PROPERTY, "seed": seed, "config": cfg, "ops": [op], "schedule": None, "faults": [], "scale_probe": True}
+
+
 def generate(seed, tier="quick"):
+    if tier == "thorough" and seed % 2000 == 11:
+        return generate_big(seed)
     rnd = tape.sub(seed, PROPERTY, "gen")
     cfg = common.base_config(seed, PROPERTY, rnd, tier=tier, n_libs=1, n_data=1)
     lib = cfg["libraries"][0]
@@ -149,6 +168,8 @@ def evaluate(dep, program):
             probe("seam_vs_partition_compared")
             if want != got:
                 v.append(Violation(PROPERTY, "C16.seam", "C16:pool-seam:tasks-differ-from-the-partition-produced", "map %s: partition made %d batches %s, pool received %d %s" % (m["key"], len(want), want[:6], len(got), got[:6])))
+    if program.get("scale_probe"):
+        probe("scale_probe_runs(>65536 indices in the posterior fan-out)")
     # every fan-out covers exactly what it was asked to cover: the supplied index array in order, else the first
     # n_prior_samples rows, else every row the file holds NOW
     pools = {id(pl): pl for pl in dep.pools}
